@@ -58,7 +58,9 @@ def gen(rng, size='small'):
     for _ in range(n):
         r = rng.random()
         if r < 0.10:
-            ops.append(('new',))
+            # a third of the later systems are created by System.simulate_multiple_times(f, 1, 0) with an f that does nothing: the calling
+            # process itself constructs the System, which is the most recently created one from then on, exactly as after System()
+            ops.append(('new', 1) if rng.random() < 0.35 else ('new',))
             nsys += 1
         elif r < 0.50:
             tr = rng.random() < 0.1
@@ -112,6 +114,10 @@ def _status(e):
     return 9
 
 
+def _nothing(system, index):
+    pass
+
+
 def run_impl(sc):
     from simprocesd.model import System
     from simprocesd.model.factory_floor import Asset
@@ -143,7 +149,10 @@ def run_impl(sc):
                 with contextlib.redirect_stdout(io.StringIO()):
                     k = x[0]
                     if k == 'new':
-                        systems.append(System())
+                        if len(x) > 1:
+                            systems.extend(System.simulate_multiple_times(_nothing, 1, 0))
+                        else:
+                            systems.append(System())
                     elif k == 'asset':
                         assets.append(_make(classes, Probe, x[1], x[2]))
                     elif k == 'sim':
